@@ -1,91 +1,10 @@
-import IofloModel.Model.Imports
+import IofloModel.Lemmas.ImportsVia
+import IofloModel.Lemmas.ImportsMono
 /-!
-Helper lemmas for C01 (generic, any graph).
-
-`findAndLoad_via`: importing a dotted name whose top-level package `r` is absent first imports `r`
-(yielding `s1`) and then behaves exactly like the same import started in `s1`.  This is what lets the
-table theorem share the (expensive) cold import of the root package between all modules.
+Helper lemmas for C01 (generic, any graph): what the chunk check of the table establishes, and imports of
+modules that are already present.
 -/
 namespace Ioflo.Imports
-
-def okB (r : Res) : Bool := r.2.isNone
-
-/-- in `s`, along the chain (module :: ancestors), a present module has a present parent -/
-def upClosed (s : State) : List Mod → Bool
-  | x :: p :: rest => (!s.isPresent x || s.isPresent p) && upClosed s (p :: rest)
-  | _ => true
-
-/-- the chain ends in `r` -/
-def endsIn (r : Mod) : List Mod → Bool
-  | [] => false
-  | [x] => x == r
-  | _ :: rest => endsIn r rest
-
-theorem findAndLoad_present (g : Graph) (run : State → Mod → List Ev → Res) (cur line : Nat)
-    (s : State) (m : Mod) (anc : List Mod) (h : s.isPresent m = true) :
-    findAndLoad g run cur line s (m :: anc) = (s, none) := by
-  simp [findAndLoad, h]
-
-theorem findAndLoad_via (g : Graph) (run : State → Mod → List Ev → Res) (cur line : Nat)
-    (s s1 : State) (r : Mod)
-    (hroot : findAndLoad g run cur line s [r] = (s1, none)) (hr : s1.isPresent r = true) :
-    ∀ c : List Mod, endsIn r c = true → (c.all fun x => !s.isPresent x) = true → upClosed s1 c = true →
-      findAndLoad g run cur line s c = findAndLoad g run cur line s1 c
-  | [], h, _, _ => by simp [endsIn] at h
-  | [x], h, _, _ => by
-    have hx : x = r := by simpa [endsIn] using h
-    subst hx
-    rw [hroot, findAndLoad_present g run cur line s1 x [] hr]
-  | m :: p :: rest, h, habs, hup => by
-    have hend : endsIn r (p :: rest) = true := by simpa [endsIn] using h
-    have habs' : ((p :: rest).all fun x => !s.isPresent x) = true := by
-      simp only [List.all_cons, Bool.and_eq_true] at habs ⊢
-      exact habs.2
-    have hm : s.isPresent m = false := by
-      simp only [List.all_cons, Bool.and_eq_true, Bool.not_eq_true'] at habs
-      exact habs.1
-    have hp : s.isPresent p = false := by
-      simp only [List.all_cons, Bool.and_eq_true, Bool.not_eq_true'] at habs
-      exact habs.2.1
-    have hup' : upClosed s1 (p :: rest) = true := by
-      simp only [upClosed, Bool.and_eq_true] at hup
-      exact hup.2
-    have hmp : s1.isPresent m = true → s1.isPresent p = true := by
-      intro hm1
-      simp only [upClosed, Bool.and_eq_true, Bool.or_eq_true, Bool.not_eq_true'] at hup
-      rcases hup.1 with h0 | h0
-      · rw [hm1] at h0; cases h0
-      · exact h0
-    have ih := findAndLoad_via g run cur line s s1 r hroot hr (p :: rest) hend habs' hup'
-    by_cases hm1 : s1.isPresent m = true
-    · -- the root import already brought `m` (and therefore its parent) in
-      have hp1 := hmp hm1
-      have e1 : findAndLoad g run cur line s1 (p :: rest) = (s1, none) :=
-        findAndLoad_present g run cur line s1 p rest hp1
-      rw [findAndLoad_present g run cur line s1 m (p :: rest) hm1]
-      rw [findAndLoad]
-      simp only [hm, hp, Bool.false_eq_true, if_false, ih, e1, hm1, if_true]
-    · have hm1' : s1.isPresent m = false := by simpa using hm1
-      rw [findAndLoad, findAndLoad]
-      simp only [hm, hp, hm1', Bool.false_eq_true, if_false, ih]
-      by_cases hp1 : s1.isPresent p = true
-      · simp only [hp1, if_true, findAndLoad_present g run cur line s1 p rest hp1]
-      · have hp1' : s1.isPresent p = false := by simpa using hp1
-        simp only [hp1', Bool.false_eq_true, if_false]
-
-/-! ## the shared-root table check -/
-
-/-- decidable side conditions of `findAndLoad_via` for the cold import of `m` through the root package `r` -/
-def viaOk (g : Graph) (s0 s1 : State) (r m : Mod) : Bool :=
-  endsIn r (g.chain m) && (g.chain m).all (fun x => !s0.isPresent x) && upClosed s1 (g.chain m)
-
-/-- the root package imports cold (giving `s1`), and every module of `ms` outside the region `skip`
-imports from `s1`; with the side conditions that make this the same as its own cold import -/
-def coldChunkOk (g : Graph) (r : Mod) (skip : Mod → Bool) (ms : List Mod) : Bool :=
-  match importChain g (fresh g) [r] with
-  | (s1, none) =>
-    s1.isPresent r && ms.all (fun m => viaOk g (fresh g) s1 r m && (skip m || okB (importChain g s1 (g.chain m))))
-  | _ => false
 
 theorem cold_of_chunk (g : Graph) (r : Mod) (skip : Mod → Bool) (ms : List Mod)
     (h : coldChunkOk g r skip ms = true) :
@@ -104,5 +23,81 @@ theorem cold_of_chunk (g : Graph) (r : Mod) (skip : Mod → Bool) (ms : List Mod
     rw [e]
     simpa [okB, importChain] using hok
   · cases h
+
+/-- what the chunk check establishes about the cold imports themselves: they all go through one and the same
+state `s1` = the result of importing the root package cold -/
+theorem cold_eq_of_chunk (g : Graph) (r : Mod) (skip : Mod → Bool) (ms : List Mod)
+    (h : coldChunkOk g r skip ms = true) :
+    (importChain g (fresh g) [r]).2 = none ∧
+    ∀ m ∈ ms, cold g m = importChain g (importChain g (fresh g) [r]).1 (g.chain m) := by
+  unfold coldChunkOk at h
+  split at h
+  · rename_i s1 hroot
+    simp only [Bool.and_eq_true, List.all_eq_true] at h
+    obtain ⟨hr, hall⟩ := h
+    refine ⟨by rw [hroot], ?_⟩
+    intro m hm
+    have hm' := hall m hm
+    simp only [viaOk, Bool.and_eq_true] at hm'
+    obtain ⟨⟨⟨hend, habs⟩, hup⟩, _⟩ := hm'
+    have e := findAndLoad_via g (runBody g) g.main 0 (fresh g) s1 r hroot hr (g.chain m) hend habs hup
+    unfold cold importModule
+    rw [hroot]
+    exact e
+  · cases h
+
+/-! ## importing what is already there -/
+
+theorem chainOf_cons (g : Graph) (f : Nat) (m : Mod) : ∃ rest, g.chainOf f m = m :: rest := by
+  cases f with
+  | zero => exact ⟨[], rfl⟩
+  | succ f =>
+    unfold Graph.chainOf
+    split
+    · split
+      · exact ⟨_, rfl⟩
+      · exact ⟨[], rfl⟩
+    · exact ⟨[], rfl⟩
+
+/-- `import m` when `m` is in `sys.modules`: nothing happens -/
+theorem importModule_present (g : Graph) (s : State) (m : Mod) (h : s.isPresent m = true) :
+    importModule g s m = (s, none) := by
+  obtain ⟨rest, hc⟩ := chainOf_cons g 32 m
+  unfold importModule importChain Graph.chain
+  rw [hc]
+  exact findAndLoad_present g (runBody g) g.main 0 s m rest h
+
+theorem importChain_present (g : Graph) (s : State) (m : Mod) (h : s.isPresent m = true) :
+    importChain g s (g.chain m) = (s, none) := importModule_present g s m h
+
+theorem importAll_present (g : Graph) (s : State) :
+    ∀ ms : List Mod, (∀ m ∈ ms, s.isPresent m = true) →
+      importAll g s ms = (s, ms.map (fun _ => none))
+  | [], _ => rfl
+  | m :: ms, h => by
+    have hm := importModule_present g s m (h m (List.mem_cons_self ..))
+    have ih := importAll_present g s ms (fun x hx => h x (List.mem_cons_of_mem _ hx))
+    simp only [importAll, hm, ih, List.map_cons]
+
+/-- once imported, always importable: after a successful `import m` and any further imports (successful or
+not), `import m` succeeds again (it finds `m` in `sys.modules`) -/
+theorem importModule_again (g : Graph) (s : State) (m : Mod) (ms : List Mod)
+    (h : (importModule g s m).2 = none) :
+    importModule g (importAll g (importModule g s m).1 ms).1 m
+      = ((importAll g (importModule g s m).1 ms).1, none) :=
+  importModule_present g _ m (importAll_mono g ms _ m (importModule_ok_present g s m h))
+
+/-- in a state that contains everything `s0` contains, importing a list of modules: every module that is
+present in `s0` imports successfully, wherever it stands in the list and whatever the other imports do -/
+theorem importAll_over (g : Graph) (s0 : State) :
+    ∀ (ms : List Mod) (s : State), PresMono s0 s →
+      ∀ p ∈ ms.zip (importAll g s ms).2, s0.isPresent p.1 = true → p.2 = none
+  | [], _, _, p, hp, _ => by simp [importAll] at hp
+  | m :: ms, s, hs, p, hp, hcore => by
+    simp only [importAll, List.zip_cons_cons, List.mem_cons] at hp
+    rcases hp with rfl | hp
+    · have := importModule_present g s m (hs m hcore)
+      simp [this]
+    · exact importAll_over g s0 ms _ (PresMono.trans hs (importModule_mono g s m)) p hp hcore
 
 end Ioflo.Imports
